@@ -17,6 +17,8 @@ INFO = {
  "C04": ("exploration", "Node-side (ready, schedulable, selector, required node affinity, taints) and pod-side (required pod affinity / anti-affinity incl. pods placed earlier in the same cycle, both directions) predicates restated in Cluster.tla and evaluated by TLC on every Bind / Pipeline of real cycles on constrained random clusters under all actions.", "topology-CRD required levels, NodePorts, volumes and DRA constraints not generated; node pool selector not varied"),
  "C05": ("exploration", "After the allocate action of every recorded real cycle TLC searches, for every untouched ready pending job of non-sharing unconstrained pods, an assignment of its tasks to nodes within truth-idle capacity (recomputed from pods, minus nominations) that respects queue limits and non-preemptible quotas; finding one is a work-conservation violation. Sampled clusters and plugin configurations.", "judged for whole-GPU / cpu-only jobs without placement constraints; reclaim/preempt progress clauses not judged"),
  "C07": ("model_checking", "Per committed reclaim statement of real cycles TLC recomputes the levelled victim queue's allocation from pods and checks it was above deserved quota or fair share, and that the reclaimer's queue stays within its (session) fair share; non-preemptible reclaimer quota is C08's invariant on the same traces.", "fair shares taken from the session (contract = C09); saturation ordering covered through C15 only"),
+ "C10": ("fault_enumeration", "Totality.tla models queue linking / orphan pruning / ancestor walks as explicit loops over an arbitrary parent function (TLC finds the non-terminating lassos for parent cycles on the as-written model) and enumerates malformed API shapes (queue graphs over <= 4 queues incl. self-parent, cycles, dangling; pod groups on missing / non-leaf queues; bad sub-group graphs and minimums; bad GPU annotations; degenerate nodes); every shape is materialised and one real scheduling cycle runs in a watchdog-guarded child process; TLC validates CycleStart/CycleEnd/Panic/Timeout/Bind traces (no panic, completes, healthy control workload scheduled).", "watchdog timeouts as failure detector (re-run in a fresh child before recording Timeout); fake clientsets"),
+ "C19": ("model_checking", "GpuRequest.tla enumerates the full product of lexical annotation classes x container requests x fraction-container names x sharing enabled; every class combination is concretised to strings (plus seeded mutations), the denoted quantity is computed by an independent decimal grammar, and the three real observations (admission validate+mutate, scheduler PodInfo, binder validation/materialisation) are judged by TLC (admitted is finite positive, scheduler exact, binder agrees, no sneak, mutate idempotent).", "class representatives + sampled strings, not all strings; independent denotation parser trusted"),
  "C18": ("model_checking", "Grouper.tla (derived vs foreign PodGroup fields, Reconcile / ForeignUpdate with a write counter) model-checked for all orders of reconciling sibling pods interleaved with foreign updates; every schedule is executed on the real PodReconciler (fake client with a mutating-call counter) for 46 owner-kind catalogue entries covering all 42 registered GVKs and TLC validates the recorded (writes, PodGroup projection) sequences.", "fake controller-runtime client; unexported reconciler dependencies injected by reflection; some plugin modes (LWS LeaderReady, MPI WaitForWorkersReady, legacy Ray) not exercised"),
  "C20": ("model_checking", "StatusAgg.tla (pods, pod-group status, queue tree status; PodPhaseChange, FlipPreemptibility, ReconcilePodGroup, ReconcileQueue) model-checked over all histories of <= 6 events; histories and seeded random ones run on the real PodGroupReconciler / QueueReconciler and the operator's DeployableOperands.Deploy on the fake client; TLC judges the recorded status projections and write counts.", "fake controller-runtime client; quantities in milli-units; operator deployed for 4 configs"),
  "C09": ("model_checking", "TLC model-checks the integer transcription of the division algorithm against the contract on an exhaustive input grid, exports the grid, the real SetResourcesShare is run on every grid input and on seeded random inputs, and TLC evaluates the contract predicates on every recorded result. Exhaustive only within the grid; the continuous input space is sampled.", "float->milli-unit conversion tolerance 2/1000; two-level recursion re-implemented in harness"),
